@@ -454,6 +454,19 @@ def misc_case(case):
         flat = lambda r: np.concatenate([np.ravel(x) for x in (r if isinstance(r, tuple) else (r,))])
         if not np.array_equal(flat(a), flat(b)):
             v.append(violation("same_seed_different_output", {"fn": fn, "args": args}, fn=fn))
+        # the returned arrays belong to the caller (a pipeline may standardise them in place, a loop may regenerate the data set for every
+        # candidate; numpy-integer seeds are what such loops produce): the next identical call still returns the documented draw
+        keep = flat(a).copy()
+        a_returned = a
+        a = tuple(np.array(x, copy=True) for x in a) if isinstance(a, tuple) else np.array(a, copy=True)       # pristine copy for the checks below
+        for arr in (a_returned if isinstance(a_returned, tuple) else (a_returned,)):
+            arr *= 0
+            arr -= 7
+        for sd in (5, np.int64(5), np.int32(5)):
+            if not np.array_equal(flat(f(*args, random_state=sd)), keep):
+                v.append(violation("same_seed_different_output", {"fn": fn, "args": args, "history": "the arrays returned by the first call were modified in place",
+                                                                  "seed_type": type(sd).__name__}, fn=fn))
+                break
         if np.array_equal(flat(a), flat(c)):
             v.append(violation("different_seeds_same_output", {"fn": fn, "args": args}, fn=fn))
         out = a if isinstance(a, tuple) else (a, None)
